@@ -61,7 +61,20 @@ static int joined;
 void verif_on_lock_acquire(struct lock* l);
 void verif_on_lock_release(struct lock* l) {}
 void thread_init(struct thread* t) { t->is_live_ = 0; }
-uint8_t thread_create(struct thread* t, void (*p)(void*), void* a) { t->is_live_ = 1; return 1; }
+/* the new thread may run at once: what it reads at start-up (its frame counter is seeded from
+ * im.frame_id, its loop condition is streamer.is_running) must already have its final value when
+ * the thread is created, and simcam_start must not write it afterwards */
+static int64_t at_create_frame_id, at_create_last_emitted;
+static int at_create_running, created;
+uint8_t
+thread_create(struct thread* t, void (*p)(void*), void* a)
+{
+    struct SimulatedCamera* sc = (struct SimulatedCamera*)a;
+    at_create_frame_id = (int64_t)sc->im.frame_id; at_create_last_emitted = (int64_t)sc->im.last_emitted_frame_id; at_create_running = sc->streamer.is_running;
+    ++created;
+    t->is_live_ = 1;
+    return 1;
+}
 void
 thread_join(struct thread* t)
 {
@@ -229,6 +242,8 @@ main(void)
     cam->im.last_emitted_frame_id = ND(int16_t);
     VASSERT(simcam_start(c) == Device_Ok, "start");
     VASSERT(cam->im.frame_id == -1 && cam->im.last_emitted_frame_id == -1, "C18: start does not restart the frame count");
+    VASSERT(created == 1 && at_create_frame_id == -1 && at_create_last_emitted == -1 && at_create_running == 1,
+            "C18: the streamer thread is created before start has reset the frame counters and set the running flag (a thread that runs at once seeds its count from the previous run: the count does not restart, ids exceed the triggers)");
     VASSERT(cam->streamer.is_running == 1, "start did not mark the streamer running");
 #if SCN == 1
     static uint8_t buf[8];
